@@ -16,7 +16,19 @@ from specs.strings import wfp, jsonlike
 
 wf_tree = z3.Function('wf_tree', V, Bool)
 wf_eval = z3.Function('wf_eval', V, V, Bool)
-fp = z3.Function('fp', Int, Bool)
+_fp = z3.Function('fp', Int, Bool)
+_AP0 = z3.Const('AP0', Int)
+
+
+def fp(r):
+    """r belongs to the policy structures that existed when the function under verification was entered
+    (objects allocated later, r >= AP0, are never in the footprint)"""
+    return z3.And(r < _AP0, _fp(r))
+
+
+def fp_or_fresh(r):
+    return z3.Or(r >= _AP0, _fp(r))
+
 http_ctx = z3.Function('http_ctx', V, Bool)
 
 
@@ -49,9 +61,9 @@ def tree_axioms(eng, st):
     seq = V.items(z3.Select(st.H('$val'), V.ref(rules)))
     j = z3.Int('wt!j')
     body = z3.And(
-        eng.isinst(c, 'BaseCheck'),
+        eng.isinst(c, 'BaseCheck'), fp_or_fresh(r),
         z3.Implies(z3.Or(eng.isinst(c, 'AndCheck'), eng.isinst(c, 'OrCheck')),
-                   z3.And(_list_obj(eng, st, rules),
+                   z3.And(_list_obj(eng, st, rules), fp_or_fresh(V.ref(rules)),
                           qforall([j], z3.Implies(z3.And(j >= 0, j < z3.Length(seq)), wf_tree(seq[j]))))),
         z3.Implies(eng.isinst(c, 'NotCheck'), wf_tree(z3.Select(st.H('rule'), r))),
         z3.Implies(eng.isinst(c, 'Check'), z3.And(V.is_str(z3.Select(st.H('kind'), r)),
@@ -64,7 +76,7 @@ def rules_store_ok(eng, st, R, e):
     k = z3.String('rs!k')
     dr = z3.Select(st.H('default_rule'), V.ref(R))
     return z3.And(
-        V.is_obj(R), eng.isinst_ref(V.ref(R), 'dict'), V.is_dict(z3.Select(st.H('$val'), V.ref(R))), fp(V.ref(R)),
+        V.is_obj(R), eng.isinst_ref(V.ref(R), 'dict'), V.is_dict(z3.Select(st.H('$val'), V.ref(R))), fp_or_fresh(V.ref(R)),
         qforall([k], z3.Implies(z3.Select(m, k) != ABSENT, wf_eval(z3.Select(m, k), e)),
                 patterns=[z3.Select(m, k)]),
         z3.Implies(eng.isinst(R, 'Rules'),
@@ -79,18 +91,18 @@ def eval_axioms(eng, st):
     j = z3.Int('eo!j')
     leaf = lambda n: eng.isinst(c, n)
     body = z3.And(
-        eng.isinst(c, 'BaseCheck'), fp(r),
+        eng.isinst(c, 'BaseCheck'), fp_or_fresh(r),
         z3.Implies(z3.Or(leaf('AndCheck'), leaf('OrCheck')),
-                   z3.And(_list_obj(eng, st, rules), fp(V.ref(rules)),
+                   z3.And(_list_obj(eng, st, rules), fp_or_fresh(V.ref(rules)),
                           qforall([j], z3.Implies(z3.And(j >= 0, j < z3.Length(seq)), wf_eval(seq[j], e))))),
         z3.Implies(leaf('NotCheck'), wf_eval(z3.Select(st.H('rule'), r), e)),
         z3.Implies(leaf('Check'), z3.And(V.is_str(z3.Select(st.H('kind'), r)),
                                          V.is_str(z3.Select(st.H('match'), r)))),
         z3.Implies(z3.Or(leaf('RoleCheck'), leaf('GenericCheck'), leaf('HttpCheck')),
                    wfp(V.s(z3.Select(st.H('match'), r)))),
-        z3.Implies(leaf('RuleCheck'), z3.And(V.is_obj(e), fp(V.ref(e)),
+        z3.Implies(leaf('RuleCheck'), z3.And(V.is_obj(e), fp_or_fresh(V.ref(e)),
                                              rules_store_ok(eng, st, z3.Select(st.H('rules'), V.ref(e)), e))),
-        z3.Implies(leaf('HttpCheck'), z3.And(http_ctx(e), fp(V.ref(e)))))
+        z3.Implies(leaf('HttpCheck'), z3.And(http_ctx(e), fp_or_fresh(V.ref(e)))))
     return [qforall([c, e], z3.Implies(wf_eval(c, e), body), patterns=[wf_eval(c, e)])]
 
 
